@@ -187,6 +187,23 @@ func (w *txWorld) makeTx(kind string, inputs []wire.OutPoint) *txInfo {
 	return ti
 }
 
+// checkerStep re-issues one iteration of checkTxDelays with a cut-off in the future (every safe
+// delay has elapsed); returns how many transactions it reported safe.
+func (w *txWorld) checkerStep() int {
+	n := w.e.node
+	if !n.state.IsReady() {
+		return 0
+	}
+	txids, err := n.txs.GetNewSafe(w.e.ctx, n.memPool, time.Now().Add(time.Hour))
+	if err != nil {
+		return 0
+	}
+	for _, id := range txids {
+		n.markTxSafe(w.e.ctx, id)
+	}
+	return len(txids)
+}
+
 func randB(r *rand.Rand, n int) []byte {
 	b := make([]byte, n)
 	r.Read(b)
@@ -527,6 +544,9 @@ func (w *txWorld) checkC04(handlers int) {
 					}
 					found = true
 					root := verifkit.VerifyMerklePath(ti.id, mp.Index, mp.Path, mp.DuplicatedIndexes)
+					if why := verifkit.MerkleProofShape(len(b.Txs), idx, len(mp.Path), mp.DuplicatedIndexes); why != "" {
+						w.find("C04", "C04/proof-malformed", fmt.Sprintf("%s at index %d of a %d-tx block: %s (path %d, duplicated layers %v)", ti.name, idx, len(b.Txs), why, len(mp.Path), mp.DuplicatedIndexes))
+					}
 					if root != hd.MerkleRoot {
 						w.find("C04", "C04/proof-does-not-verify", fmt.Sprintf("%s at index %d of a %d-tx block: proof does not hash to the header's merkle root", ti.name, idx, len(b.Txs)))
 					}
